@@ -15,7 +15,7 @@ from vf.ref import metafile as refmeta
 ID = "C11"
 LEVEL = "exploration"
 TECHNIQUE = "Hypothesis-generated metafiles (tool-made, tool-made then edited, reference-encoded with extra keys and hostile names/URLs) x version request; URI parsed at byte level and compared with hashes of the raw info span located by the strict decoder ; thorough tier adds a coverage-guided (atheris/libFuzzer) stage over the same strategy"
-RULE = ("Cases: metafile source (own creators all versions with options; own then 1-2 edits; reference-encoded v1/v2/hybrid with extra "
+RULE = ("Cases: metafile source (own creators all versions with options; own then 1-2 edits, optionally followed by the interactive editor with or without a change; reference-encoded v1/v2/hybrid with extra "
         "keys incl. non-UTF-8 byte strings in info and at top level, names and URLs containing space & = % + # ? / : ; and non-ASCII, "
         "announce only / single-tier / multi-tier announce-list / none, url-list as list / string / absent) x version request (0; "
         "1,2,3 for hybrids; 2 for v2-only; 1 for v1) x route (magnet() / CLI `magnet`, `m`). Oracle: URI starts with magnet:?; xt "
